@@ -177,7 +177,7 @@ fn cmd_gen_front(args: &[String]) {
     let mut evs: Vec<(Value, Value)> = vec![];
     match kind.as_str() {
         "hist" => {
-            let n = if thorough { 40000 } else { 4000 };
+            let n = if thorough { 16000 } else { 4000 };
             evs = (0..n)
                 .into_par_iter()
                 .map(|i| {
@@ -227,7 +227,7 @@ fn cmd_gen_front(args: &[String]) {
                 .collect();
         }
         "wasm" => {
-            let n = if thorough { 40000 } else { 4000 };
+            let n = if thorough { 16000 } else { 4000 };
             evs = (0..n)
                 .into_par_iter()
                 .map(|i| {
@@ -263,7 +263,7 @@ fn cmd_gen_front(args: &[String]) {
                 .collect();
         }
         "py-plan" => {
-            let n = if thorough { 30000 } else { 3000 };
+            let n = if thorough { 12000 } else { 3000 };
             let plans: Vec<Value> = (0..n).map(|i| front::py_plan(&mut rng_for(i), i + 1)).collect();
             std::fs::create_dir_all(&out).unwrap();
             std::fs::write(format!("{}/py_scen.json", out), Value::Array(plans).to_string()).unwrap();
